@@ -10,13 +10,14 @@ from ..result import Result
 from .c12 import _eliminate
 
 ID = "C07"
-TOLERANCES = {"range excess (relative to max(|lo|,|hi|,hi-lo))": 1e-7, "M-matrix structure (relative to the row's largest entry)": 1e-10}
+TOLERANCES = {"range excess (relative to max(|lo|,|hi|,hi-lo))": 1e-7, "M-matrix structure (relative to the row's largest entry)": 1e-10,
+              "weights sum to one (relative to the row's coefficients before elimination)": 1e-9}
 RULE = ("Generated: grid (9 classes, N 1..4 / 1..3, all spacings, r0 = 0 or offset) x D in [0, contrast 1e6] with exact zeros x "
         "discretely divergence-free u from discrete stream functions (1-D: q/A), amplitude over 4 decades x beta >= 0 (1/3 of cases) "
         "x dt = theta/||A|| with theta over 8 decades x initial field (30 % non-negative) x 1..5 steps x per side Dirichlet "
         "(face-wise data) / no-flux, per non-radial axis periodic.  Oracle: every cell value after each step within [min,max] of "
         "the previous interior values and the Dirichlet data (0 included when beta is present); non-negative data stay "
-        "non-negative; mechanism: ghost-eliminated step matrix has non-positive off-diagonals and non-negative row sums.  "
+        "non-negative; mechanism: ghost-eliminated step matrix has non-positive off-diagonals and non-negative row sums, and its weights sum to one (constant data 1 are reproduced exactly without a sink, not exceeded with one).  "
         "Non-trivial = non-constant initial field, theta >= 1, contrast >= 10 or non-uniform spacing, >=1 Dirichlet side.  "
         "Distinct = SHA-1 of the canonical case.")
 ASSUMPTIONS = ["periodic axes have equal end cells (K2); the polar angle of SphericalGrid3D is not made periodic"]
@@ -144,6 +145,21 @@ def check(case):
         res.see("rowsum", float(max(-rs.min(), 0.0)))
         if rs.min() < -1e-9:
             res.fail(f"negative-rowsum:{tag}", f"step matrix (ghosts eliminated) has a negative row sum on {name}: {rs.min():.3e} (relative)", float(-rs.min()))
+
+        # the step's weights must sum to one: with every Dirichlet datum equal to 1 the constant 1 solves the spatial
+        # problem exactly (A 1 = s_1) when there is no sink, and A 1 - s_1 = sink >= 0 otherwise.  A spurious source or sink
+        # on the diagonal (weights summing to != 1) lets suitable data leave their range even though T stays an M-matrix
+        P1 = dict(P, bc=[dict(e, **{sd: (dict(e[sd], c=e[sd]['b']) if e[sd]['kind'] == 'D' else e[sd]) for sd in ('lo', 'hi')}) for e in P['bc']],
+                  init=np.ones(d).tolist())
+        m1, _, phi1 = problem.build_var(P1, m=m)
+        el1 = _eliminate(m, P1, d, phi1)
+        if el1 is not None:
+            imb = (Ae.sum(axis=1) - el1[1]) / rowmax_e
+            res.see("weight-sum", float(np.abs(imb).max() if P['beta'] is None else max(-imb.min(), 0.0)))
+            if (P['beta'] is None and np.abs(imb).max() > 1e-9) or imb.min() < -1e-9:
+                i = int(np.argmax(np.abs(imb)))
+                res.fail(f"weight-sum:{tag}", f"step weights do not sum to one on {name}: with all Dirichlet data = 1 the constant 1 leaves a residual "
+                         f"{imb[i]:.3e} (relative) in cell {i} - a spurious {'sink' if imb[i] > 0 else 'source'} on the diagonal", float(np.abs(imb).max()))
 
     coefs = problem.make_coefs(m, P)        # one velocity / diffusivity object for the whole time loop
     for k in range(P['steps']):
